@@ -350,12 +350,9 @@ def s_put(vc):
     is_api = issubclass(out.raised_type(), webapp.APIError)
     unchanged = And(*[same(vc, got, old) for (_, got), (_, old) in zip(post, pre)])
     vc.ensure("exception.view_not_updated", len(updated) == 0)
-    if is_api:
-        # APIError is the path the code handles: revert() restores the stored backup — the pre-edit state only if no older backup existed
-        vc.ensure_kf("exception.api_error.state_unchanged", unchanged, "KF-C47-2", backup_differs)
-    else:
-        vc.ensure_kf("exception.other.state_unchanged", unchanged, "KF-C47-1", True)
-    vc.ensure("exception.kind", is_api or issubclass(out.raised_type(), (ValueError, TypeError, AttributeError)))
+    # every failure restores the state from before the request (was KF-C47-1 / KF-C47-2, fixed in 413cd74c7) and is an APIError
+    vc.ensure("exception.state_unchanged", unchanged)
+    vc.ensure("exception.kind", is_api)
 
 
 def observe_snapshot(vc, s):
